@@ -26,9 +26,8 @@ def act(gd, i, s):
     out = []
     for r in range(n):
         for c in range(m):
-            v = wrap(sum(M[r][j] * s[j * m + c] for j in range(n)))
-            if mod > 0:
-                v %= mod
+            v = sum(M[r][j] * s[j * m + c] for j in range(n))          # exact (Python integers)
+            v = v % mod if mod > 0 else wrap(v)                           # modulo m, or int64 wrap-around when there is no modulus
             out.append(v)
     return tuple(out)
 
@@ -82,10 +81,8 @@ def is_inverse_closed_ref(gd):
     n, mod = gd["n"], gd["modulo"]
 
     def mul(a, b):
-        out = [[wrap(sum(a[i][j] * b[j][k] for j in range(n))) for k in range(n)] for i in range(n)]
-        if mod > 0:
-            out = [[v % mod for v in r] for r in out]
-        return out
+        out = [[sum(a[i][j] * b[j][k] for j in range(n)) for k in range(n)] for i in range(n)]
+        return [[(v % mod if mod > 0 else wrap(v)) for v in r] for r in out]
     eye = [[1 if i == j else 0 for j in range(n)] for i in range(n)]
     return all(any(mul(a, b) == eye and mul(b, a) == eye for b in gd["mats"]) for a in gd["mats"])
 
